@@ -497,7 +497,7 @@ void run_case(const uint8_t *data, size_t size, CaseCtx &ctx) {
   co.const_cap = CONST_CAP;
 #ifdef H_BU
   co.allow_orphans = false; // documented restriction: main is the only function without callers
-  co.rec_num = 4;
+  co.rec_num = 8;
 #else
   co.allow_orphans = true;
   co.rec_num = 10;
